@@ -312,12 +312,12 @@ func FuzzDirectiveCase(r *rand.Rand, name string) *Case {
 	sb.WriteString("package p\n" + directiveBase + "\n")
 	sb.WriteString(strings.Join(fn, "\n") + "\nfunc Custom(s NestedS) NestedT { return NestedT{} }\n\n")
 	base := []string{"// goverter:converter", "// goverter:extend Custom", "// goverter:enum:unknown @ignore"}
-	sb.WriteString(strings.Join(append(base, conv...), "\n") + "\ntype Converter interface {\n\t// goverter:ignore Extra\n\t// goverter:enum:map SKindA TKindA\n\t// goverter:enum:map SKindB TKindB\n")
+	sb.WriteString(strings.Join(append(base, conv...), "\n") + "\ntype Converter interface {\n\t// goverter:ignore Extra\n")
 	sb.WriteString(strings.Join(meth, "\n"))
 	if len(meth) > 0 {
 		sb.WriteString("\n")
 	}
-	sb.WriteString("\tConvert(source Source) Target\n\tConvertKind(source SKind) TKind\n}\n")
+	sb.WriteString("\tConvert(source Source) Target\n\t// goverter:enum:map SKindA TKindA\n\t// goverter:enum:map SKindB TKindB\n\tConvertKind(source SKind) TKind\n}\n")
 	if len(vars) > 0 {
 		sb.WriteString("\n// goverter:variables\n// goverter:enum:unknown @ignore\nvar (\n\t// goverter:ignore Extra Kind\n" + strings.Join(vars, "\n") + "\n\tConvertVar func(source Source) Target\n)\n")
 	}
